@@ -4,6 +4,12 @@ import ast
 from ..index import dotted, walk_no_nested, loc
 from ..reference import flags as REF
 from ..symeval import Obj, PureInterp, Raised, Unsupported, tok
+
+
+def _mk_instance(*a, **k):
+    from .evalhelpers import make_instance
+    return make_instance(*a, **k)
+
 from .c02 import rule_id_lookup
 from .c10 import NAME, PROJ, make_target
 from .persist import _calls
@@ -24,7 +30,7 @@ def submit_argv(ctx, mod, cname, deps):
 
     hooks = {"gwf.backends.utils.call": fake_call, "builtins.open": lambda *a, **k: Obj("file"), "attr:write": lambda recv, *a: None}
     interp = PureInterp(ctx, hooks=hooks)
-    self_obj = Obj("ops", working_dir=PROJ, log_mode="full", accounting_enabled=True, **{"__class__": ci})
+    self_obj = _mk_instance(ctx, ci, "ops", working_dir=PROJ, log_mode="full", accounting_enabled=True)
     ret = interp.call(fn, (make_target(ctx, {}), list(deps)), {}, self_obj=self_obj)
     return fn, calls, ret
 
